@@ -104,6 +104,8 @@ Proof.
   - exact Hl.
   - exact Hl.
   - apply lab_upd_hdr; [now apply hvalues_filter_other|exact Hl].
+  - exact Hl.
+  - now apply lab_write_body, lab_write_header.
 Qed.
 
 Lemma lab_run_actions ce0 l : forall s,
@@ -133,9 +135,9 @@ Proof.
   apply lab_bind; [apply lab_run_actions; auto|]. intros s1 H1.
   destruct (f_pass f).
   - apply lab_bind.
-    + apply IH; auto. destruct (f_fresh f); auto.
+    + apply IH; auto. destruct (f_fresh f), (f_wrap f); auto.
     + intros s2 H2. apply lab_bind.
-      * apply lab_run_actions; auto. destruct (f_fresh f); auto.
+      * apply lab_run_actions; auto. destruct (f_fresh f), (f_wrap f); auto.
       * intros s3 H3. exact H3.
   - apply lab_bind; [apply lab_run_actions; auto|]. intros s3 H3. exact H3.
 Qed.
